@@ -57,7 +57,8 @@ def full_state(system):
         if d is None:
             return None
         return [[float(a), float(b)] for a, b in d] if isinstance(d, list) else [float(d[0]), float(d[1])]
-    st['variables'] = {str(v): {'domain': str(fl(v.get_domain())), 'norm': str([str(t) for t in v.norm]) if v.norm else 'None', 'dist': str(v.distribution), 'nominal': str(np.asarray(v.get_nominal(), dtype=float).tolist() if v.get_nominal() is not None else None)}
+    st['variables'] = {str(v): {'domain': str(fl(v.get_domain())), 'norm': str([str(t) for t in v.norm]) if v.norm else 'None', 'dist': str(v.distribution), 'nominal': str(np.asarray(v.get_nominal(), dtype=float).tolist() if v.get_nominal() is not None else None),
+                                'raw_fields': str((v.nominal, v.description, v.units, v.tex, v.category))}
                        for v in system.variables()}
     for c in system.components:
         st['components'][c.name]['model_kwargs'] = str(dict(c.model_kwargs.data)) if hasattr(c.model_kwargs, 'data') else str(c.model_kwargs)
@@ -179,6 +180,7 @@ def run(ctx: Ctx):
     finally:
         os.chdir(cwd0)
         shutil.rmtree(tmp, ignore_errors=True)
+    run_resave_and_stale(ctx)
     if lines:
         for (case, want), mo in zip(meta, run_model(lines)):
             ctx.count('multi_index_strings')
@@ -187,3 +189,63 @@ def run(ctx: Ctx):
             got = ''.join(chr(c) for c in mo[0])
             if got != want or mo[1] != 1:
                 ctx.disagree('C12:str(tuple)', case, [got, mo[1]], want)
+
+
+def run_resave_and_stale(ctx: Ctx):
+    """(a) save, train more, save AGAIN under the same file name in the same directory, load: the loaded system is the later one;
+    (b) two checkpoints saved under the same file name in two directories; the later directory is moved and loaded while the working
+    directory is the EARLIER one (which holds same-named but stale pickles): the files next to the yaml must win"""
+    from amisc import System
+    rng = ctx.rng
+    tmp = WORK / 'c12_tmp2'
+    shutil.rmtree(tmp, ignore_errors=True); tmp.mkdir(parents=True, exist_ok=True)
+    cwd0 = os.getcwd()
+    try:
+        for n in range(ctx.pick(3, 15)):
+            sys_seed = ctx.seed * 389 + n
+            system = build('plain', sys_seed, None)
+            if not any(c.has_surrogate for c in system.components):
+                continue
+            np.random.seed(n)
+            dirA = tmp / f'A{n}'; dirB = tmp / f'B{n}'; dirA.mkdir(); dirB.mkdir()
+            system.fit(max_iter=2, num_refine=8, max_tol=-1.0)
+            system.save_to_file('sys.yml', save_dir=dirA)
+            early = full_state(system)
+            system.fit(max_iter=3, num_refine=8, max_tol=-1.0)
+            late = full_state(system)
+            system.save_to_file('sys.yml', save_dir=dirA)          # (a) same name, same directory
+            system.save_to_file('sys.yml', save_dir=dirB)          # (b) same name, other directory
+            case = {'resave_system': n, 'system_seed': sys_seed}
+            ctx.case(case, nontrivial=True, kind='resave')
+            os.chdir(tmp)
+            try:
+                la = System.load_from_file(dirA / 'sys.yml')
+            finally:
+                os.chdir(cwd0)
+            d = diff_states(late, full_state(la))
+            if d:
+                ctx.violate('C12:resave-keeps-stale-data', f'saving twice under the same name: the loaded system differs from the live one in {d}', case)
+            # make dirA stale again (the early checkpoint) and load the moved dirB from inside dirA
+            shutil.rmtree(dirA); dirA.mkdir()
+            sys_early = build('plain', sys_seed, None)
+            np.random.seed(n)
+            sys_early.fit(max_iter=2, num_refine=8, max_tol=-1.0)
+            sys_early.save_to_file('sys.yml', save_dir=dirA)
+            moved = tmp / f'moved{n}'
+            shutil.move(str(dirB), str(moved))
+            os.chdir(dirA)
+            try:
+                lb = System.load_from_file(moved / 'sys.yml')
+            except Exception as e:
+                ctx.violate('C12:load-raises', f'loading a moved checkpoint from a directory holding same-named files raised {type(e).__name__}: {e}', case)
+                lb = None
+            finally:
+                os.chdir(cwd0)
+            if lb is not None:
+                d = diff_states(late, full_state(lb))
+                if d:
+                    ctx.violate('C12:stale-files-in-cwd-win', f'a moved checkpoint loaded from a working directory that holds same-named older files differs from '
+                                f'what was saved in {d}', case)
+    finally:
+        os.chdir(cwd0)
+        shutil.rmtree(tmp, ignore_errors=True)
